@@ -19,7 +19,7 @@ var (
 	c13Timers []time.Duration
 )
 
-//verif:stub time.Now files=backoff.go,client.go
+//verif:stub time.Now files=*
 func c13Now() time.Time {
 	if c13FixedClock {
 		t := time.Unix(2000000000, 0)
@@ -49,13 +49,13 @@ func c13Until(t time.Time) time.Duration { return t.Sub(c13Now()) }
 //verif:stub time.Until files=backoff.go
 func c13UntilLogged(t time.Time) time.Duration { return time.Duration(vI64("logged-wait")) }
 
-//verif:stub time.NewTimer files=client.go
+//verif:stub time.NewTimer files=*
 func c13NewTimer(d time.Duration) *time.Timer {
 	c13Timers = append(c13Timers, d)
 	return time.NewTimer(0)
 }
 
-//verif:stub math/rand.Intn files=client.go
+//verif:stub math/rand.Intn files=*
 func c13Intn(n int) int {
 	v := vInt("jitter-ms")
 	vAssume(v >= 0 && v < n)
